@@ -222,7 +222,7 @@ macro_rules! c10_on {
 }
 
 pub fn case(cx: &mut Cx, rng: &mut Rng) -> R {
-    let nmax = if cx.small { 5 } else if rng.chance(1, 10) { 12 } else { 7 };
+    let nmax = if cx.small { 5 } else if rng.chance(1, if cx.thorough { 40 } else { 150 }) { 40 } else if rng.chance(1, 10) { 12 } else { 7 };
     let wmode = rng.below(4);
     let (lo, hi) = match wmode {
         0 => (0, 9),
